@@ -1,15 +1,20 @@
 import TracklibVerif.Lemmas.TextIOGpx
 import TracklibVerif.Lemmas.TextIOAll
 import TracklibVerif.Lemmas.TextIOGpxAF
+import TracklibVerif.Lemmas.TextIOWktFile
 /-! # C13 — tracks and networks written to file are read back unchanged
 
 Theorems about the model `TV.TextIO` (`Model/TextIO.lean`), which mirrors
-`TrackWriter.writeToFile` / `TrackReader.__readFromCsv` (including `read_all`), `ObsTime.__str__` / `readTimestamp`,
-`NetworkWriter.writeToCsv` / `NetworkReader.readFromFile`, `Track.toWKT` / `TrackReader.parseWkt`,
-`TrackWriter.writeToGpx` (with and without `af=True`) / `TrackReader.__readFromGpx`.
-Numbers are scaled integers: `v : SNum` at `d` decimals stands for the float `±mag / 10^d`, which is what
-Python's `format` prints on that lattice (that contract, `float()` and the rounding of off-lattice
-values are exercised by the correspondence check, not proved). -/
+`TrackWriter.writeToFile` (also with every argument at its default) / `writeToCsv` / `TrackReader.__readFromCsv` (including
+`read_all` and the directory branch of `readFromFile`), `ObsTime.__str__` / `readTimestamp`,
+`NetworkWriter.writeToCsv` / `NetworkReader.readFromFile`, `Track.toWKT` / `TrackReader.parseWkt` / `TrackReader.readFromWkt`,
+`TrackWriter.writeToGpx` (with and without `af=True`, a track or a collection in one file) / `TrackReader.__readFromGpx`.
+Numbers are decimals in sign–magnitude form: `v : SNum` at `d` decimals stands for the float `±mag / 10^d`. The fixed-point
+formats of the CSV / GPX writers print it exactly on that lattice; `str(float)` (WKT, network geometries, feature values) prints
+the shortest round-trip decimal of ANY finite double — positionally or, below `1e-4` and from `1e16`, in exponent notation
+(`reprFloat`) — and `float()` reads both (`parseDec?`, with an exponent part). That contract (`format`'s rounding of off-lattice
+values, `repr`'s choice of the shortest digits, `float()`'s correctly rounded conversion) is exercised by the correspondence
+check, not proved. -/
 namespace TV.C13
 open TV.TextIO TV.ObsTime
 
@@ -20,15 +25,16 @@ mantissa `v.toInt`, `d` decimals. Instances: `{:10.3f}` (ENU/ECEF, 1 mm), `{:20.
 theorem fixed_roundtrip (w d : Nat) (v : SNum) : parseDec? (renderFixedS w d v) = some (v.toInt, d) := by
   rw [renderFixedS_eq, parseDec_fixedCoreS]
 
-/-- T1 for a plain integer `n` (the value `n / 10^d`). -/
-theorem fixed_roundtrip_int (w d : Nat) (n : Int) : parseDec? (renderFixed w d n) = some (n, d) := by
-  unfold renderFixed
-  rw [fixed_roundtrip]
-  congr 2
+theorem toInt_ofInt (n : Int) : (SNum.ofInt n).toInt = n := by
   unfold SNum.toInt SNum.ofInt
   by_cases h : n < 0
   · simp [h]; omega
   · simp [h]; omega
+
+/-- T1 for a plain integer `n` (the value `n / 10^d`). -/
+theorem fixed_roundtrip_int (w d : Nat) (n : Int) : parseDec? (renderFixed w d n) = some (n, d) := by
+  unfold renderFixed
+  rw [fixed_roundtrip, toInt_ofInt]
 
 /-- T1 without the `strip()` (the GPX writer prints `{:3.8f}` inside attributes and `float()` reads it). -/
 theorem fixed_padded_roundtrip (w d : Nat) (v : SNum) : parseDec? (fixedWS w d v) = some (v.toInt, d) :=
@@ -157,6 +163,46 @@ theorem writeToCsv_collection_roundtrip (f : CsvFmt) (geo : Bool) (pf : List Tok
       | zero => exact hr k hk
       | succ j => exact hrs j (by simpa using h1) (by simpa using h2) k hk
 
+/-- **default arguments** `writeToFile_default_roundtrip`: `TrackWriter.writeToFile(track, path)` — every other argument left at its
+default, the branch that builds its own format (E in column 0, N in column 1, separator `,`, no header) — writes a file that the
+matching call `readFromCsv(path, 0, 1)` reads back as the same observations (planimetric coordinates; no U and no time column
+is written: third coordinate 0, `ObsTime()`). -/
+theorem writeToFile_default_roundtrip (geo : Bool) (pf : List Tok) (rows : List Row) (srid : Str)
+    (hrows : ∀ r ∈ rows, RowOK ⟨0, 1, -1, -1, ','⟩ geo pf r) (hsrid : '\n' ∉ srid) :
+    ∃ text, writeToFileDefault geo pf rows srid = .ok text ∧
+      readCsv ⟨0, 1, -1, -1, ','⟩ pf 0 text = .ok (rows.map (expRow ⟨0, 1, -1, -1, ','⟩ geo pf)) := by
+  obtain ⟨text, hw, hr⟩ := writeToCsv_roundtrip ⟨0, 1, -1, -1, ','⟩ geo pf 0 rows srid (by decide) (by decide) (by decide)
+    (fun h => absurd rfl h) hrows hsrid
+  exact ⟨text, hw, hr 0 (by simp)⟩
+
+/-- **directory read-back** `readFromCsv_dir_roundtrip`: after `writeToCsv(collection, dir, format)`, `readFromCsv(dir, …)` (the
+directory branch of `readFromFile`) — whatever the order in which `os.listdir` delivers the files (`listing`: any sequence of
+written files, each paired with the track it was written from) — returns those tracks in listing order, each with all its
+observations in order; a file whose track is empty is skipped. -/
+theorem readFromCsv_dir_roundtrip (f : CsvFmt) (geo : Bool) (pf : List Tok) (h : Nat) (tracks : List (List Row)) (srid : Str)
+    (hv : ValidIds f) (hsep : numChar f.sep = false) (hnl : f.sep ≠ '\n') (htime : f.idT ≠ -1 → TimeOK pf f.sep)
+    (hrows : ∀ rows ∈ tracks, ∀ r ∈ rows, RowOK f geo pf r) (hsrid : '\n' ∉ srid) :
+    ∃ texts, writeToCsvColl f geo pf h tracks srid = .ok texts ∧ texts.length = tracks.length ∧
+      ∀ listing : List (Str × List Row), (∀ x ∈ listing, x ∈ texts.zip tracks) → ∀ hr, hr ≤ (if h = 0 then 0 else 3) →
+        readCsvDir f pf hr (listing.map (·.1))
+          = .ok ((listing.map (fun x => x.2.map (expRow f geo pf))).filter (fun t => !t.isEmpty)) := by
+  obtain ⟨texts, hw, hlen, hrd⟩ := writeToCsv_collection_roundtrip f geo pf h tracks srid hv hsep hnl htime hrows hsrid
+  refine ⟨texts, hw, hlen, fun listing hl hr hle => ?_⟩
+  unfold readCsvDir
+  have hm : (listing.map (·.1)).mapM (readCsv f pf hr) = .ok (listing.map (fun x => x.2.map (expRow f geo pf))) := by
+    rw [List.mapM_map]
+    apply mapM_ok
+    intro x hx
+    obtain ⟨i, hi, hxi⟩ := List.mem_iff_getElem.1 (hl x hx)
+    rw [List.getElem_zip] at hxi
+    have h1 : i < texts.length := by simp at hi; omega
+    have h2 : i < tracks.length := by simp at hi; omega
+    have := hrd i h1 h2 hr hle
+    rw [← hxi]
+    exact this
+  rw [hm]
+  rfl
+
 /-- **T2 (feature columns)** `csv_read_all_roundtrip`: a track written by `writeToFile` with its header block (`h > 0`)
 and the feature columns `af_names = names` — values of any kind (`AFVal`: int, float on a decimal lattice, str, nan, ±inf)
 whose text is one field of the line (`AFOK`), names that are good fields, distinct and not refused by the track (`NameOK`),
@@ -181,21 +227,25 @@ theorem csv_read_all_roundtrip (f : CsvFmt) (geo : Bool) (pf : List Tok) (h naf 
   TV.TextIO.csv_read_all_roundtrip f geo pf h naf rows srid names hv hsep hnl hcol htime hrows hafs hsrid hpos hne hnames hnd hrl
 
 /-- `read_all_values`: what `expAF` is. In a column whose name does not end in `&`: an `int` comes back as the float of the
-same value; a float `n / 10^d` as the decimal `str()` printed, whose value is `n / 10^d` (`repr_value`); `nan`, `inf`, `-inf`
-as themselves; a string that `float()` refuses and that holds no double quote as itself. In a column whose name ends in `&`
-every value comes back as its text. Feature values that are ints or floats always satisfy `AFOK` when the separator is not
-a number character. -/
+same value; a float `n / 10^d` of ANY magnitude as the decimal `str()` printed — positionally or, below `1e-4` and from `1e16`,
+in exponent notation (`5e-09`, `1.5e+22`) — whose value is `n / 10^d` (`repr_value`); `nan`, `inf`, `-inf` as themselves; a
+string that `float()` refuses and that holds no double quote as itself. In a column whose name ends in `&` every value comes
+back as its text. Feature values that are ints always satisfy `AFOK` when the separator is not a number character; floats
+when it is, besides, neither the exponent marker `e` nor `+`. -/
 theorem read_all_values (name : Str) :
     (name.getLast? ≠ some '&' →
       (∀ i, expAF name (.int i) = .num (i, 0)) ∧
-      (∀ d n, expAF name (.dec d n) = .num (reprVal d n) ∧ (reprVal d n).2 ≤ d ∧ (reprVal d n).1 * 10 ^ (d - (reprVal d n).2) = n) ∧
+      (∀ d n, expAF name (.dec d n) = .num (reprValF d (SNum.ofInt n)) ∧
+        (reprValF d (SNum.ofInt n)).1 * 10 ^ d = n * 10 ^ (reprValF d (SNum.ofInt n)).2) ∧
       expAF name .nan = .nan ∧ (∀ b, expAF name (.inf b) = .inf b) ∧
       (∀ s, floatLit? s = none → '"' ∉ s → expAF name (.str s) = .str s)) ∧
     (name.getLast? = some '&' → ∀ v, expAF name v = .str (afText v)) ∧
-    (∀ sep, numChar sep = false → (∀ i, AFOK sep (.int i)) ∧ (∀ d n, AFOK sep (.dec d n))) := by
-  refine ⟨fun h => ?_, fun h v => expAF_amp name h v, fun sep hs => ⟨afOK_int sep hs, afOK_dec sep hs⟩⟩
+    (∀ sep, numChar sep = false → (∀ i, AFOK sep (.int i)) ∧ (sep ≠ 'e' → sep ≠ '+' → ∀ d n, AFOK sep (.dec d n))) := by
+  refine ⟨fun h => ?_, fun h v => expAF_amp name h v, fun sep hs => ⟨afOK_int sep hs, fun he hp => afOK_dec sep hs he hp⟩⟩
   obtain ⟨h1, h2, h3, h4, h5⟩ := expAF_values name h
-  exact ⟨h1, fun d n => ⟨h2 d n, reprVal_value d n⟩, h3, h4, h5⟩
+  refine ⟨h1, fun d n => ⟨h2 d n, ?_⟩, h3, h4, h5⟩
+  have := reprValF_value d (SNum.ofInt n)
+  rwa [toInt_ofInt] at this
 
 /-- **T3 `time_roundtrip`**: for a format made of distinct full-width codes (`2D 2M 4Y 2h 2m 2s 3z`,
 `Lossless`) and arbitrary literal characters, and a stamp whose fields fit their widths (`Fits`: four-digit
@@ -243,6 +293,19 @@ theorem gpx_file_roundtrip (rf : List Tok) (hrf : ReadsIso rf) (geo : Bool) (nam
     readGpx rf geo (gpxBody name rows) = .ok [rows.map (expG rf geo)] :=
   TV.TextIO.gpx_file_roundtrip rf hrf geo name hname rows hrows
 
+/-- **GPX collection** `gpx_collection_roundtrip`: `writeToGpx(collection, path)` with `oneFile=True` (the default) writes one
+`<trk>` element per track, in the order of the collection; the file is read back as the same number of tracks in the same
+order, each with the same points in order (track names free of `<` and newline; a track without points comes back empty). -/
+theorem gpx_collection_roundtrip (rf : List Tok) (hrf : ReadsIso rf) (geo : Bool) (tracks : List (Str × List GRow))
+    (hok : ∀ t ∈ tracks, ('<' ∉ t.1 ∧ '\n' ∉ t.1) ∧ ∀ r ∈ t.2, Fits r.t) :
+    readGpx rf geo (gpxBodyColl tracks) = .ok (tracks.map (fun t => t.2.map (expG rf geo))) :=
+  TV.TextIO.gpx_collection_roundtrip rf hrf geo tracks hok
+
+/-- two tracks in one file, the second one empty -/
+example : (readGpx isoFmt true (gpxBodyColl [("a".toList, [⟨⟨false, 100000000⟩, ⟨true, 200000000⟩, ⟨false, 0⟩, ⟨⟨2020, 1, 2, 3, 4, 5⟩, 0⟩⟩]),
+      ("b".toList, [])])).toOption
+    = some [[⟨(100000000, 8), (-200000000, 8), (0, 8), ⟨⟨2020, 1, 2, 3, 4, 5⟩, 0⟩⟩], []] := by decide +kernel
+
 /-- **GPX with extensions** `gpx_af_file_roundtrip`: the text `writeToGpx(track, path, af=True)` writes — every point followed
 by an `<extensions>` block with one line `<name>str(value)</name>` per analytical feature — is read by the `trk` scanner as the
 same single track with the same points in order (the reader does not read the feature values: `read_all` is ignored for GPX).
@@ -269,16 +332,17 @@ theorem gpx_read_formats : ReadsIso isoFmt ∧ ReadsIso (tokenize "4Y-2M-2DT2h:2
     ∧ (∀ t, (project isoFmt t).d = t.d) ∧ (∀ t, (project (tokenize "4Y-2M-2DT2h:2m:2sZ".toList) t).d = t.d) :=
   ⟨readsIso_iso, readsIso_isoZ, fun t => project_full _ t (by decide), fun t => project_full _ t (by decide)⟩
 
-/-- **written precision, partial** `written_precision_partial`: on the decimal lattice (values `±m / 10^d`)
-what the CSV writer prints for a coordinate and what `float()` reads from it denote the same number, and
-`str(float)` / `float()` likewise for WKT. MISSING: Python's `format` applied to an arbitrary double (the
-correctly rounded choice of `m`, hence "within half a unit of the last printed decimal") and `float()`'s
-correctly rounded conversion are library behaviour; they are exercised by the `fix` stream and by the
-byte-for-byte comparison of every written file, not proved. -/
-theorem written_precision_partial (w d : Nat) (v : SNum) (n : Int) :
+/-- **written precision, partial** `written_precision_partial`: the written precision is the precision of the TEXT. For the
+CSV and GPX writers (fixed-point formats) what is printed for a coordinate `±m / 10^d` and what `float()` reads from it denote
+the same number; for WKT, which writes `str(float)`, the text read back denotes exactly the number printed, whatever its
+magnitude (positional or exponent notation, either marker). MISSING: Python's `format` applied to an arbitrary double (the
+correctly rounded choice of `m`, hence "within half a unit of the last printed decimal"), the choice of the shortest
+round-trip digits by `repr`, and `float()`'s correctly rounded conversion are library behaviour; they are exercised by the
+`fix` stream, by the byte-for-byte comparison of every written file and by the off-lattice / full-range streams, not proved. -/
+theorem written_precision_partial (w d : Nat) (v : SNum) (ec : Char) (hec : ec = 'e' ∨ ec = 'E') :
     parseDec? (renderFixedS w d v) = some (v.toInt, d) ∧
-    (∃ m k, parseDec? (reprDec d n) = some (m, k) ∧ k ≤ d ∧ m * 10 ^ (d - k) = n) :=
-  ⟨fixed_roundtrip w d v, _, _, parseDec_reprDec d n, reprVal_value d n⟩
+    (parseDec? (reprFloat ec d v) = some (reprValF d v) ∧ (reprValF d v).1 * 10 ^ d = v.toInt * 10 ^ (reprValF d v).2) :=
+  ⟨fixed_roundtrip w d v, parseDec_reprFloat ec (by rcases hec with rfl | rfl <;> decide) d v, reprValF_value d v⟩
 
 /-- well-formed stamps before year 10000 fit -/
 theorem fits_of_wf (t : Stamp) (h : WFs t) (hy : t.d.year < 10000) : Fits t := by
@@ -287,18 +351,91 @@ theorem fits_of_wf (t : Stamp) (h : WFs t) (hy : t.d.year < 10000) : Fits t := b
     unfold monthDays; split <;> (try split) <;> omega
   exact ⟨hy, by omega, by omega, by omega, by omega, by omega, hms⟩
 
-/-- **T4 `wkt_roundtrip`**: for a non-empty ENU, Geo or ECEF track whose first two coordinates (E N / lon lat / X Y) are `n / 10^d`
-(printed by `str(float)` as the decimal without trailing zeros, `reprDec`), `TrackReader.parseWkt(track.toWKT())`
-returns the same number of vertices in the same order, each with the coordinates written (`expVertex`:
-`float()` of the printed decimals, third coordinate 0). -/
+/-- **T4 `wkt_roundtrip`**: for a non-empty ENU, Geo or ECEF track whose first two coordinates (E N / lon lat / X Y) are ANY
+finite floats — `±mag / 10^d` their shortest round-trip decimals: negative zero, integer-valued (`5.0`), many digits, below
+`1e-4` or from `1e16` where `str(float)` switches to the exponent notation (`1.9290316747799796e-05`, `-4.26e-12`, `1.5e+22`) —
+`TrackReader.parseWkt(track.toWKT())` returns the same number of vertices in the same order, each with the coordinates written
+(`expVertex`: `float()` of the printed text, third coordinate 0; `wkt_vertex_value`: its value is the value written). The text
+reaches the vertex loop upper-cased (`wkt_upper`): an exponent marker is read as `E`. -/
 theorem wkt_roundtrip (d : Nat) (pts : List Pt) (hne : pts ≠ []) :
     parseWkt (toWKT d pts) = .ok (pts.map (expVertex d)) :=
   TV.TextIO.wkt_roundtrip d pts hne
 
-/-- the decimal read back from `str(n / 10^d)` has the value written: mantissa · 10^(d − decimals) = n -/
-theorem repr_value (d : Nat) (n : Int) :
-    parseDec? (reprDec d n) = some (reprVal d n) ∧ (reprVal d n).2 ≤ d ∧ (reprVal d n).1 * 10 ^ (d - (reprVal d n).2) = n :=
-  ⟨parseDec_reprDec d n, reprVal_value d n⟩
+/-- the vertex parsed back has the planimetric coordinates written: `mantissa / 10^decimals = ±mag / 10^d` for both ordinates
+(cross-multiplied, exact), and the third coordinate 0 -/
+theorem wkt_vertex_value (d : Nat) (p : Pt) :
+    (expVertex d p).1.1 * 10 ^ d = p.1.toInt * 10 ^ (expVertex d p).1.2 ∧
+    (expVertex d p).2.1.1 * 10 ^ d = p.2.toInt * 10 ^ (expVertex d p).2.1.2 ∧ (expVertex d p).2.2 = (0, 0) :=
+  ⟨reprValF_value d p.1, reprValF_value d p.2, rfl⟩
+
+/-- what `parseWkt` works on: `wkt.upper()` of the exported text is the same text with the exponent marker `E` -/
+theorem wkt_upper (d : Nat) (pts : List Pt) : toUpper (toWKT d pts) = toWKTE 'E' d pts := toUpper_toWKT d pts
+
+/-- **`polygon_parse`**: a one-ring polygon text in the canonical layout `POLYGON((x y,x y,…))` — which tracklib never writes but
+other tools do — whose ordinates are printed as `str(float)` prints them (any magnitude) is parsed by `TrackReader.parseWkt` as
+the vertices of its ring, in order, each with the coordinates written. -/
+theorem polygon_parse (d : Nat) (pts : List Pt) (hne : pts ≠ []) :
+    parseWkt (toPolyWKT 'e' d pts) = .ok (pts.map (expVertex d)) :=
+  TV.TextIO.polygon_parse d pts hne
+
+example : toPolyWKT 'e' 5 [(0, 0), (150000, 0), (150000, 1), (0, 0)] = "POLYGON((0.0 0.0,1.5 0.0,1.5 1e-05,0.0 0.0))".toList := by
+  decide +kernel
+
+/-- **WKT file** `wkt_file_roundtrip`: tracks exported with `toWKT` and stored one per line in a csv file — `uid sep tid sep
+"LINESTRING(…)"`, the layout `TrackReader.readFromWkt(path, 2, 0, 1, sep, h, doublequote=…)` reads; with or without a header line,
+with or without an empty line after every track, either value of `doublequote` — come back as the same number of tracks in the
+same order, each with its user id, its track id and every vertex with the planimetric coordinates written (`wkt_vertex_value`).
+tracklib has no writer for this layout: the file is the one a user writes with `sep.join`. Identifiers free of the separator, the
+quote and end-of-line characters; at least one vertex per track; the separator is not the quote or an end-of-line character (it
+MAY be the comma or the blank: the WKT text is quoted). -/
+theorem wkt_file_roundtrip (dq : Bool) (sep : Char) (hsep : sep ≠ '"') (hs : sep ≠ '\n' ∧ sep ≠ '\r') (hdr blank : Bool) (d : Nat)
+    (tracks : List (Str × Str × List Pt)) (hok : ∀ t ∈ tracks, WTrackOK sep t) :
+    readWktFile ⟨2, 0, 1, sep, if hdr then 1 else 0, dq⟩ (wktFile sep hdr true blank 2 0 1 d tracks)
+      = .ok (tracks.map (expWTrack d)) :=
+  TV.TextIO.wkt_file_roundtrip dq sep hsep hs hdr blank d tracks hok
+
+/-- a two-track file with a header line and blank lines, separator `,` (the WKT text is quoted), one ordinate in exponent notation -/
+example : wktFile ',' true true true 2 0 1 5 [("u1".toList, "t0".toList, [(150000, -225000), (1, 0)]), ("u2".toList, "t1".toList, [(0, 500000)])]
+      = "user,track,wkt\nu1,t0,\"LINESTRING(1.5 -2.25,1e-05 0.0)\"\n\nu2,t1,\"LINESTRING(0.0 5.0)\"\n\n".toList
+    ∧ (readWktFile ⟨2, 0, 1, ',', 1, false⟩ (wktFile ',' true true true 2 0 1 5
+        [("u1".toList, "t0".toList, [(150000, -225000), (1, 0)]), ("u2".toList, "t1".toList, [(0, 500000)])])).toOption
+      = some [⟨some "u1".toList, some "t0".toList, [((15, 1), (-225, 2), (0, 0)), ((1, 5), (0, 1), (0, 0))]⟩,
+              ⟨some "u2".toList, some "t1".toList, [((0, 1), (50, 1), (0, 0))]⟩] := by decide +kernel
+example : WTrackOK ',' ("u1".toList, "t0".toList, [(150000, -225000)]) := by unfold WTrackOK IdOK; decide
+
+/-- **`repr_value`**: `float(str(x))` for `x = ±mag / 10^d` of any magnitude: the text — positional, or in exponent notation
+with the marker `e` (as written) or `E` (after `str.upper()`) — is accepted by `float()` and the decimal read back has the
+value written, `mantissa · 10^d = ±mag · 10^decimals` (exact; that this decimal is the double itself is `repr`'s
+shortest-round-trip contract, see `written_precision_partial`). -/
+theorem repr_value (ec : Char) (hec : ec = 'e' ∨ ec = 'E') (d : Nat) (v : SNum) :
+    parseDec? (reprFloat ec d v) = some (reprValF d v) ∧ (reprValF d v).1 * 10 ^ d = v.toInt * 10 ^ (reprValF d v).2 :=
+  ⟨parseDec_reprFloat ec (by rcases hec with rfl | rfl <;> decide) d v, reprValF_value d v⟩
+
+/-- **`float_exponent_form`**: `float()` of a literal in exponent notation `[-]d[.ddd](e|E)(+|-)xx` — the digits `a`, the
+exponent `x` — is the decimal `a / 10^(digits-1) · 10^x`, for every `a` and `x` (reader side of `repr_value`: also texts
+`str(float)` would not print, e.g. with trailing zeros in the mantissa). -/
+theorem float_exponent_form (ec : Char) (hec : ec = 'e' ∨ ec = 'E') (neg : Bool) (a : Nat) (x : Int) :
+    parseDec? ((if neg then ['-'] else []) ++ sciMant a ++ expText ec x)
+      = some (scaleDec (if neg then -(a : Int) else (a : Int)) (numDigits a - 1) x) :=
+  parseDec_sci ec (by rcases hec with rfl | rfl <;> decide) neg a x
+
+/-- the texts `str(float)` prints around the two switches, and what is read back: 0.0001 is positional, 0.00001 is `1e-05`;
+9999999999999998.0 is positional, 1e16 is `1e+16`; the ordinate of the seeded defect; the smallest double; negative zero -/
+example : reprFloat 'e' 4 ⟨false, 1⟩ = "0.0001".toList ∧ reprFloat 'e' 5 ⟨false, 1⟩ = "1e-05".toList
+    ∧ reprFloat 'e' 0 ⟨false, 9999999999999998⟩ = "9999999999999998.0".toList ∧ reprFloat 'e' 0 ⟨false, 10 ^ 16⟩ = "1e+16".toList
+    ∧ reprFloat 'e' 21 ⟨false, 19290316747799796⟩ = "1.9290316747799796e-05".toList
+    ∧ reprFloat 'E' 27 ⟨true, 4262146191535976⟩ = "-4.262146191535976E-12".toList
+    ∧ reprFloat 'e' 324 ⟨false, 5⟩ = "5e-324".toList ∧ reprFloat 'e' 3 ⟨true, 0⟩ = "-0.0".toList
+    ∧ reprFloat 'e' 0 ⟨false, 5⟩ = "5.0".toList ∧ reprFloat 'e' 3 ⟨false, 15 * 10 ^ 24⟩ = "1.5e+22".toList := by decide +kernel
+example : reprValF 21 ⟨false, 19290316747799796⟩ = (19290316747799796, 21) ∧ reprValF 3 ⟨false, 15 * 10 ^ 24⟩ = (15 * 10 ^ 21, 0)
+    ∧ reprValF 3 ⟨true, 0⟩ = (0, 1) ∧ reprValF 5 ⟨true, 100⟩ = (-1, 3) := by decide +kernel
+/-- the track of the seeded defect: a point due east of the base, one due north of it -/
+example : toWKT 27 [(⟨false, 14678254238078335 * 10 ^ 12⟩, ⟨false, 19290316747799796 * 10 ^ 6⟩), (⟨true, 4262146191535976⟩, ⟨false, 22241366549883587 * 10 ^ 12⟩)]
+      = "LINESTRING(14.678254238078335 1.9290316747799796e-05,-4.262146191535976e-12 22.241366549883587)".toList
+    ∧ (parseWkt (toWKT 27 [(⟨false, 14678254238078335 * 10 ^ 12⟩, ⟨false, 19290316747799796 * 10 ^ 6⟩),
+        (⟨true, 4262146191535976⟩, ⟨false, 22241366549883587 * 10 ^ 12⟩)])).toOption
+      = some [((14678254238078335, 15), (19290316747799796, 21), (0, 0)), ((-4262146191535976, 27), (22241366549883587, 15), (0, 0))] := by
+  decide +kernel
 
 /-- **T4 `network_row_roundtrip`**: the line `NetworkWriter.writeToCsv` writes for an edge
 (`id,source,target,orientation,"LINESTRING(...)"`), split by `csv.reader` with the same delimiter, gives the five
